@@ -54,6 +54,38 @@ def build(tr, valf, rng=None, history=False):
             return None
     if set(c.asdict) != set(tr):
         return None
+    if history == 3:
+        # the set is a value: a copy, deep copy or unpickled copy answers like the original
+        from harness.variants import clone
+        try:
+            c, _how = clone(rng, c, ways=("deepcopy", "copy", "pickle"))
+        except Exception as e:  # noqa
+            return ("clone-raised", f"{type(e).__name__}: {str(e)[:80]}")
+    if history == 4:
+        # ONE object walks from a neighbouring accepted set (queried there) to this one by a single assignment
+        from harness.common import CAT
+        for _try in range(6):
+            old = rng.choice(list(tr))
+            others = [m for m in NAMES if CAT[m] == CAT[old] and m not in tr]
+            if not others:
+                continue
+            c2 = Constraints()
+            try:
+                for n in tr:
+                    m = rng.choice(others) if n == old else n
+                    setattr(c2, m, True if m in VOID else valf(NAMES.index(m)))
+                if len(c2.asdict) != 3:
+                    continue
+                c2.is_current_mode_implemented()
+                str(c2)
+                setattr(c2, old, True if old in VOID else valf(NAMES.index(old)))
+            except DiffcalcException:
+                continue
+            if set(c2.asdict) == set(tr):
+                c = c2
+                break
+        else:
+            return None
     if history == 2:
         # rejected operations after the state was reached: the answer must not depend on them
         before = dict(c.asdict)
@@ -88,6 +120,9 @@ def run_impl(ctx, nsets, history):
             c = build(tr, VALUE_SETS[si % len(VALUE_SETS)], ctx.rng, history)
             if c is None:
                 res[(tr, si)] = (False, None, None, None)
+                continue
+            if isinstance(c, tuple):
+                res[(tr, si)] = (True, None, "EXC", "copying / pickling the constraint set raised " + c[1])
                 continue
             try:
                 im = c.is_current_mode_implemented()
@@ -130,15 +165,22 @@ def correspondence(ctx):
 
 def oracle(ctx, widen=1):
     nsets = ctx.scale(2, 5) * (1 if widen == 1 else 2)
-    for history in (False, True, 2):
+    fresh = None
+    for history in (False, True, 2, 3, 4):
         impl = run_impl(ctx, nsets, history)
+        if history is False:
+            fresh = impl
         nacc = 0
         for (tr, si), (acc, im, kind, detail) in impl.items():
             if not acc:
                 continue
             nacc += 1
             bad = None
-            if im is None:
+            ref = fresh.get((tr, si)) if fresh is not None else None
+            if history is not False and ref is not None and ref[0] and im is not None and ref[1] is not None and im != ref[1]:
+                # the answer is a function of the three active constraints, not of the object's past
+                bad = f"answers implemented={im} where a fresh object holding the same three constraints answers {ref[1]}"
+            elif im is None:
                 bad = f"is_current_mode_implemented raised {detail}"
             elif im and kind in ("NOTIMPL", "NOCODE"):
                 bad = f"reported implemented but get_position answers {kind}"
@@ -147,10 +189,10 @@ def oracle(ctx, widen=1):
             elif not im and kind != "NOTIMPL":
                 bad = f"reported not implemented but get_position answers {kind} ({detail})"
             if bad:
-                ctx.violation(f"triple {tr}{['', ' reached through a history with rejected assignments', ' followed by rejected assignments'][int(history)]}: {bad}",
+                ctx.violation(f"triple {tr}{['', ' reached through a history with rejected assignments', ' followed by rejected assignments', ' on a copy / unpickled copy of the set', ' reached on one object from a neighbouring set by a single assignment'][int(history)]}: {bad}",
                               {"triple": list(tr), "value_set": si, "history": int(history), "seed": ctx.seed},
                               {"kind": "table-vs-solver", "triple": ",".join(tr)})
-        ctx.stream("oracle:table-vs-solver" + ["", ":history", ":after-rejected-ops"][int(history)], len(impl), nacc)
+        ctx.stream("oracle:table-vs-solver" + ["", ":history", ":after-rejected-ops", ":copies", ":same-object-walk"][int(history)], len(impl), nacc)
     ctx.sample({"oracle": "implemented <-> outcome class", "triple": ["delta", "mu", "bisect"]})
 
 
